@@ -84,7 +84,8 @@ func checkHasPath(rep *lib.Report, shape string) {
 	}
 	tSmall, tBig := 11, 16
 	src.WriteString("\n" + diamondSrc("tdiaSmall", tSmall) + "\n" + diamondSrc("tdiaBig", tBig))
-	dir := lib.WorkDir(prop, "haspath")
+	dir := lib.WorkDir(prop, fmt.Sprintf("haspath-%d", os.Getpid()))
+	defer os.RemoveAll(dir)
 	lib.WriteProgram(dir, "vprog", map[string]string{"main.go": src.String()})
 	prog, _, err := lib.LoadSSA(dir, ssa.BuilderMode(0), false, ".")
 	if err != nil {
@@ -195,6 +196,7 @@ func checkHasPath(rep *lib.Report, shape string) {
 	}
 	qi := 0
 	mism := 0
+	nWrong := 0
 	lineRe := regexp.MustCompile(`^hp (\S+) (\d+) (\d+) cur=(\d),(\d+),(\d) fix=(\d),(\d+),(\d)$`)
 	maxRatio := 0.0
 	li := maxDia + 1
@@ -244,6 +246,11 @@ func checkHasPath(rep *lib.Report, shape string) {
 				// ground truth: plain reachability
 				gt := reach(f, q.src, q.tgt)
 				if (gt && want == "0") || (!gt && want == "1") {
+					nWrong++
+					if nWrong > 3 {
+						rep.Count("haspath:wrong-answers-not-listed")
+						continue
+					}
 					rep.Fail("haspath-wrong:"+key, "lang.HasPathTo answers differently from reachability in the CFG (RunForwardIterative then skips or re-queues the wrong blocks)", []byte(content), false)
 				} else {
 					rep.Fail("haspath-model:"+key, "correspondence M10 broken: Lean model of HasPathTo differs from the real function (its answer still equals plain reachability)", []byte(content), true)
@@ -411,7 +418,8 @@ func main() {
 `
 
 func checkTraces(rep *lib.Report) {
-	dir := lib.WorkDir(prop, "traces")
+	dir := lib.WorkDir(prop, fmt.Sprintf("traces-%d", os.Getpid()))
+	defer os.RemoveAll(dir)
 	lib.WriteProgram(dir, "c07p", map[string]string{"main.go": traceProg, "cfg.yaml": cfgYaml(nil)})
 	prog, pkgs, err := lib.LoadSSA(dir, ssa.InstantiateGenerics, true, ".")
 	if err != nil {
